@@ -7,6 +7,7 @@ pub(crate) enum ErrorCode {
     UserExists,
     DbExists,
     DbInvalid,
+    NameInvalid,
     DbError,
 }
 
@@ -24,6 +25,7 @@ impl From<&ErrorCode> for StatusCode {
             ErrorCode::UserExists => 463,
             ErrorCode::DbExists => 465,
             ErrorCode::DbInvalid => 467,
+            ErrorCode::NameInvalid => 468,
             ErrorCode::DbError => 470,
         })
         .unwrap()
@@ -44,6 +46,7 @@ impl ErrorCode {
             ErrorCode::UserExists => "user exists",
             ErrorCode::DbExists => "db already exists",
             ErrorCode::DbInvalid => "db invalid",
+            ErrorCode::NameInvalid => "name invalid",
             ErrorCode::DbError => "db error",
         }
     }
